@@ -340,6 +340,17 @@ class Calls(Exec):
                 # defining frame
                 st.assume(self.eval_spec(st, e, st.frames[fidx_], old=self._old_view(pre_call, fidx_), assume=True))
 
+        # the caller's own callback parameter handed on to the callee: whatever the callee does with it is a
+        # sequence of invocations, each of which satisfies the callback's (reflexive-transitive) effect contract
+        if c.callback and isinstance(bound.get(c.callback['param']), VFn) and \
+                bound[c.callback['param']].what[0] == 'callback':
+            cspec = bound[c.callback['param']].what[1]
+            if cspec.get('ensures') or cspec.get('modifies'):
+                cur = st.frame
+                for mexpr in cspec.get('modifies', []):
+                    self.havoc_target(st, mexpr, cur, node)
+                for e in cspec.get('ensures', []):
+                    st.assume(self.eval_spec(st, e, cur, old=self._old_view(pre_call0, len(pre_call0.frames) - 1), assume=True))
         RT = parse_type(c.returns)
         if RT[0] in ('ref', 'list', 'rec') or c.allocates or self._may_allocate(RT):
             a2 = fresh_int('alloc')
